@@ -47,6 +47,11 @@ def check(prog: Program, run: Run) -> None:
     bytes_like_accepted(prog, run, "C03.R5")
     from . import c02
     common.run_as(run, "C02.R2", "C03.R6", lambda r: c02._siblings(prog, r))
+    # re-encoding puts the keys where the decoder read them: the value pass of key parameters
+    # positions byte and bit cursor itself
+    from . import c01
+    c01.key_value_pass_positions(prog, run, "C03.R6")
+    c02.mask_byte_order(prog, run, "C03.R6")
     # the integer representations: what the decoder computes for a raw value is the ODX formula
     # (per bit length, not per byte), i.e. the inverse of what the encoder does
     common.run_as(run, "C02.R1", "C03.R5", lambda r: c02._formulas(prog, r))
